@@ -313,6 +313,10 @@ def run_phase(cfg, acc):
             if phase in ('stopping-sync', 'stopping-async', 'finished'):
                 fut = terminate(task)
                 if phase == 'stopping-async':
+                    for _ in range(40):         # some causes take effect later (failing task)
+                        if circuit.error is not None:
+                            break
+                        await asyncio.sleep(0.5)
                     await asyncio.sleep(2)
                     if task.done():
                         raise RuntimeError('harness: clean-up already over')
